@@ -282,8 +282,8 @@ def run_shard(ctx):
     a, b, c = strategies()
     ex = lambda cs: execute(cs, ctx.scratch)  # noqa: E731
     dl = (lambda: (ctx.deadline - time.time()) if ctx.deadline else None)
-    core.hyp_search(a, ex, stats, max_examples=20000 if thorough else 4000, seed=core.hash64(ctx.seed, ID, "A", ctx.shard), findings=ctx.findings, deadline_s=dl())
-    core.hyp_search(b, ex, stats, max_examples=400 if thorough else 60, seed=core.hash64(ctx.seed, ID, "B", ctx.shard), findings=ctx.findings, deadline_s=dl())
+    core.hyp_search(a, ex, stats, max_examples=100000 if thorough else 4000, seed=core.hash64(ctx.seed, ID, "A", ctx.shard), findings=ctx.findings, deadline_s=dl())
+    core.hyp_search(b, ex, stats, max_examples=3000 if thorough else 60, seed=core.hash64(ctx.seed, ID, "B", ctx.shard), findings=ctx.findings, deadline_s=dl())
     # part C is a small finite matrix: enumerate it (5 clusters x 8 evolutions x 2 deliveries)
     cs = [{"part": "C", "cluster": cl, "evolution": ev, "delivery": dv} for cl in (None, "c", "a:b", "x#y", "c1@p") for ev in ("none", "edit", "reversion", "rename", "remove", "recluster", "unwrap", "rebind-object") for dv in ("restart", "inproc")]
     core.enum_search(cs, ex, stats, findings=ctx.findings, shard=ctx.shard, nshards=ctx.nshards, deadline_s=dl())
